@@ -38,6 +38,27 @@ def prep(c):
     return c
 
 
+def twin_epochs_case():
+    """two consecutive epochs with the same shape (same block / transaction layout, same accounts, signature ids that differ
+    by 100): their CARs place corresponding objects at the same offset with the same size, so an object location does not
+    identify the epoch.  One block has block time 0 (early ledger history recorded none)."""
+    arch = []
+    for e, base in ((8, 100), (9, 200)):
+        blocks = []
+        slot, parent, sig = 432000 * e + 3, 432000 * e - 1, base
+        for b in range(4):
+            txs = []
+            for k in range(3):
+                sig += 1
+                txs.append({"sig": sig, "accts": [1, 2 + k % 2], "loaded": [], "vote": k == 2 and b % 2 == 0, "failed": k == 1 and b == 1, "nometa": False,
+                            "dframes": 1, "mframes": 1, "pad": 0, "mpad": 0})
+            blocks.append({"slot": slot, "parent": parent, "blocktime": 0 if b == 2 else 1600000000 + b, "height": 1000 + b,
+                           "entries": [{"txs": txs}], "rframes": 0})
+            parent, slot = slot, slot + 2
+        arch.append({"epoch": e, "blocks": blocks})
+    return {"arch": arch}
+
+
 def big_account_case():
     """one epoch in which account 1 is mentioned by more transactions than the index path's per-account batch"""
     blocks, sig = [], 0
@@ -69,6 +90,7 @@ def run(ctx):
         cases = [prep(c) for c in gen_archives(ctx, 3 if q else 20, name="Gen_Ledger_stream", eps="{1, 2, 5}", me=2, mine=2, mintx=10, depth=160)]
         cases += [prep(c) for c in gen_archives(ctx, 2 if q else 10, name="Gen_Ledger_stream1", eps="{0, 3}", me=1, mine=1, mintx=8, depth=120)]
         cases.append(big_account_case())
+        cases.append(twin_epochs_case())
     casep = ctx.write_ndjson("cases.ndjson", cases)
     ov = ctx.overlay(main_files=["helpers_test.go", "arch_test.go", "c19_test.go"], replace=gsfa_fast_overlay(ctx))
     b = ctx.go_build(".", ov, name="main_c19")
